@@ -14,6 +14,8 @@ use trv_core::seq;
 use trv_core::svcx::{self, Action, Counts, Opts, Scenario, Viol};
 use trv_core::world::{Outcome, Phase, World};
 
+mod threads;
+
 trv_core::install_clock_seam!();
 
 // ---------------------------------------------------------------------------------------
@@ -493,6 +495,23 @@ fn main() {
     }
     if let Some(p) = cli.replay {
         let v = trv_core::load_replay(&p);
+        if let Some(ch) = v["history"]["thread_schedule"].as_array() {
+            let choices: Vec<usize> = ch.iter().filter_map(|x| x.as_u64().map(|u| u as usize)).collect();
+            match threads::replay(v["config"].as_str().unwrap_or(""), &choices, v["kind"].as_str().unwrap_or("")) {
+                Some(true) => {
+                    println!("VIOLATION property=C13 replay={p}");
+                    std::process::exit(1);
+                }
+                Some(false) => {
+                    println!("replay: the recorded violation does not occur on the current tree");
+                    std::process::exit(0);
+                }
+                None => {
+                    eprintln!("MACHINERY no thread configuration with that label");
+                    std::process::exit(2);
+                }
+            }
+        }
         if v["config"].as_str().unwrap_or("").starts_with("adaptive service") {
             let mut c = svc_configs(Tier::Quick);
             c.extend(svc_configs(Tier::Thorough));
@@ -538,5 +557,8 @@ fn main() {
             svcx::validate_abstraction(&cfg, 6, &ex.fingerprints, ex.depth_completed, &mut rep);
         }
     }
+    // thread level: whole calls on OS threads, interleaved at the service's own atomics
+    threads::run(tier, &mut rep);
+    rep.require_witness("thread_schedules_with_preemption");
     trv_core::finish(rep);
 }
